@@ -38,7 +38,7 @@ def rules_json(parser, ph):
     return out
 
 
-def instrument(parser, log):
+def instrument(parser, log, log_reset):
     """wrap the callbacks of an LALR Lark instance in place; returns the list of rules in index order"""
     cbs = parser.parser.parser.parser.callbacks
     rules = list(parser.rules)
@@ -46,13 +46,15 @@ def instrument(parser, log):
 
     num = {}            # id(object) -> number of the reduction result it is (renumbered: TLC integers are 32 bit)
     counter = [0]
+    alive = []          # the results stay referenced for the duration of a parse: an id is never reused while it is in num
+    log_reset.append(lambda: (num.clear(), alive.clear()))
 
     def wrap(rule, f):
         def g(children):
             kids = [val5(c) for c in children]
-            kid = [num.get(id(c), 0) if hasattr(c, 'data') else 0 for c in children]
+            kid = [num.get(id(c), 0) if (hasattr(c, 'data') or hasattr(c, 'type')) else 0 for c in children]
             res = f(children)
-            if hasattr(res, 'data'):
+            if hasattr(res, 'data') or hasattr(res, 'type'):       # a ?rule may return a bare token: it is numbered too
                 same = [n for c, n in zip(children, kid) if c is res and n]
                 if same:
                     rid = same[0]
@@ -60,6 +62,7 @@ def instrument(parser, log):
                     counter[0] += 1
                     rid = counter[0]
                 num[id(res)] = rid
+                alive.append(res)
             else:
                 rid = 0
             log.append({'r': idx[rule], 'kids': kids, 'res': val5(res), 'rid': rid, 'kid': kid})
@@ -85,15 +88,17 @@ def observe_case(spec):
     except Exception as ex:
         case['skip'] = type(ex).__name__
         return case
-    log = []
+    log, resets = [], []
     try:
-        instrument(p, log)
+        instrument(p, log, resets)
     except Exception as ex:
         raise C.MachineryFailure('cannot wrap the rule callbacks: %s' % ex)
     case['rules'] = rules_json(p, ph)
     for w in spec['inputs']:
         text = E.to_text(w)
         n0 = len(log)
+        for r in resets:
+            r()
         try:
             with O.budget(20):
                 p.parse(text)
@@ -131,7 +136,7 @@ def judge(pid, cases, ev, rep, tmp, name):
         if res.violated and not res.verdicts:
             raise C.MachineryFailure('TraceBuilder violation without VERDICT line')
         for v in sorted(set(tuple(x) for x in res.verdicts)):
-            if v[2] == SPANLAW and pid == 'C06':
+            if v[2].split('@')[0] == SPANLAW and pid == 'C06':
                 c = chunk[int(v[0]) - 1]
                 k = int(v[1]) - 1
                 text = next((t[0] for t in c['texts'] if t[1] <= k < t[2]), '')
@@ -201,7 +206,27 @@ def specs(n, rng, pp=None):
     return out
 
 
+MC_CFG = 'SPECIFICATION Spec\nCONSTANT MaxDepth = %d\n%s\nCHECK_DEADLOCK FALSE\n'
+
+
+def design(pid, tier, ev):
+    """MC_TreeBuilder: the callback chain over all nestings of a catalogue of rule shapes; and the model must refute the span
+    law where a ?rule returns a bare token (known finding C06-token-through-expand1) - otherwise it says nothing"""
+    d = 4 if tier == 'quick' else 6
+    res = C.tlc('MC_TreeBuilder', MC_CFG % (d, 'INVARIANT SpanLaw\nINVARIANT ContainerLaw\nINVARIANT NoHelperLeft\nINVARIANT NonesCounted'), timeout=3000)
+    C.tlc_must_run(res, 'MC_TreeBuilder')
+    ev.add_tlc('MC_TreeBuilder MaxDepth=%d' % d, res, 'design')
+    if not res.ok:
+        raise C.MachineryFailure('MC_TreeBuilder: %s violated' % res.violated)
+    r2 = C.tlc('MC_TreeBuilder', MC_CFG % (3, 'INVARIANT SpanLawEvenThroughTokens'), timeout=600, workers=2)
+    C.tlc_must_run(r2, 'MC_TreeBuilder (no exemption)')
+    ev.cov['binding_selftest']['model_finds_token_through_expand1'] = bool(r2.violated)
+    if not r2.violated:
+        raise C.MachineryFailure('MC_TreeBuilder does not find the token pass-through counterexample: the model is vacuous')
+
+
 def phase(pid, tier, rng, ev, rep, tmp, n_quick=2500, n_thorough=20000):
+    design(pid, tier, ev)
     cases = [c for c in C.pmap(observe_case, specs(C.scale(n_quick if tier == 'quick' else n_thorough), rng, pp=True if pid == 'C06' else None))
              if not c['skip'] and c['reds']]
     ev.count('builder_grammars', len(cases))
@@ -254,7 +279,7 @@ def selftest(cases, ev, tmp):
     os.remove(path)
     got = sorted({(int(v[0]), int(v[1]), v[2]) for v in res.verdicts})
     want = [(1, 1, 'reduction-keeps-other-children'), (2, 1, 'reduction-sets-other-positions')]
-    got = [(a, b, 'reduction-sets-other-positions' if cl == SPANLAW else cl) for a, b, cl in got]     # a moved position breaks the span law first
+    got = [(a, b, 'reduction-sets-other-positions' if cl.split('@')[0] == SPANLAW else cl) for a, b, cl in got]     # a moved position breaks the span law first
     ev.cov['binding_selftest']['builder_corrupted_reductions_rejected'] = got == want
     if got != want:
         raise C.MachineryFailure('builder self-test: corrupted reductions judged %s, expected %s' % (got, want))
